@@ -89,11 +89,57 @@ func hasLowerOrNul(s string) bool {
 // C20 — shipped tables well-formed, baseline never lost. The tables are
 // finite and are enumerated completely at a quiescent point (after package
 // initialisation), then every entry is exercised through the real look-up.
+// c20ColdVerify: after the concurrent first calls of a cold-start child, every
+// baseline tag / attribute / event must still be listed and found.
+func c20ColdVerify() string {
+	var base Baseline
+	data, err := os.ReadFile(filepath.Join(verifDir(), "baseline", "tables.json"))
+	if err != nil || json.Unmarshal(data, &base) != nil {
+		return ""
+	}
+	live := liveTables()
+	for n, ty := range base.Events {
+		if lt, ok := live.Events[n]; !ok || lt != ty {
+			return fmt.Sprintf("event %q of the pinned baseline is no longer in the live table", n)
+		}
+		if got := li.VerifIsBlackAttr("on" + strings.ToLower(n)); got != ty {
+			return fmt.Sprintf("event %q is listed but on%s is classified %d", n, strings.ToLower(n), got)
+		}
+	}
+	for n, ty := range base.Attrs {
+		if lt, ok := live.Attrs[n]; !ok || lt != ty {
+			return fmt.Sprintf("black attribute %q of the pinned baseline is no longer in the live table", n)
+		}
+		if got := li.VerifIsBlackAttr(strings.ToLower(n)); got != ty {
+			return fmt.Sprintf("black attribute %q is listed with type %d but the look-up returns %d", n, ty, got)
+		}
+	}
+	for _, t := range base.Tags {
+		if !li.VerifIsBlackTag(strings.ToLower(t)) {
+			return fmt.Sprintf("black tag %q is no longer found", t)
+		}
+	}
+	for k, v := range base.Keywords {
+		if lv, ok := live.Keywords[k]; !ok || lv != v {
+			return fmt.Sprintf("SQL table entry %q (%s) of the pinned baseline is missing or changed (%s)", k, v, lv)
+		}
+	}
+	return ""
+}
+
 func c20() *core.Check {
 	return &core.Check{
 		ID:         "C20",
 		Exhaustive: true,
-		Rule: "all entries of the five live tables (read through the accessors after package initialisation) are checked against the well-formedness predicates; every entry of baseline/tables.json (snapshot of the pinned tree) must be present with the same classification; every baseline entry is additionally exercised through the real look-up path (isBlackTag / isBlackAttr per name, token class per keyword, every multi-word key through the folder's merge in four probe frames), once in the fresh process and once more after five look-alikes of every name went through the same look-ups; the tables are digested again at a second quiescent point after ~30 000 calls over the corpus, every tag, event and keyword, and must be unchanged. Finite and enumerated completely. " +
+		// first-use probes: 16 goroutines make the process's first look-ups at
+		// once, then the tables are compared with the baseline
+		Spice: []string{"<a onclick=x>", "<a onbeforeinput=x>", "<a oncontextmenu=x>", "<a onzoom=x>", "<a onabort=x>", "<a onwebkitplaybacktargetavailabilitychanged=x>", "<a href=javascript:x>", "<script>", "<a style=x>", "1 union select 1", "1 or sleep(5)", "x' group by 1 --", "<a onpointerenter=x>", "<a onload=x>", "<a onerror=x>", "<a onfocus=x>"},
+		SpiceCall: func(s string) {
+			li.IsXSS(s)
+			li.IsSQLi(s)
+		},
+		ColdStartVerify: c20ColdVerify,
+		Rule: "all entries of the five live tables (read through the accessors after package initialisation) are checked against the well-formedness predicates; every entry of baseline/tables.json (snapshot of the pinned tree) must be present with the same classification; every baseline entry is additionally exercised through the real look-up path (isBlackTag / isBlackAttr per name, token class per keyword, every multi-word key through the folder's merge in four probe frames), once in the fresh process and once more after five look-alikes of every name went through the same look-ups; the tables are digested again at a second quiescent point after ~30 000 calls over the corpus, every tag, event and keyword, and must be unchanged. Before that, six fresh processes make their first look-ups from 16 goroutines at once and compare the tables with the baseline (a table sorted or normalised lazily on first use). Finite and enumerated completely. " +
 			"Non-trivial = every table entry; distinct by table+key.",
 		Plan: func(tier string, seed uint64) []core.Unit { return []core.Unit{{Gen: "tables", Lo: 0, Hi: 1}} },
 		Gen: func(w *core.Worker, u core.Unit, emit func(core.Case)) {
@@ -416,15 +462,23 @@ func exerciseKeyword(k string, cls byte) string {
 		if phraseExempt()[k] {
 			return ""
 		}
-		for _, frame := range []string{"%s 1", "1 %s 1", "select %s x", "x %s y"} {
-			tr := li.VerifSQLFold(fmt.Sprintf(frame, lower), li.VerifSQLFlagQuoteNone|li.VerifSQLFlagAnsi)
-			for _, t := range tr.Tokens {
-				if strings.EqualFold(t.Val, k) && t.Category == cls {
-					return ""
+		// the words may be separated by any white-space byte, by several, or by a comment
+		for _, sep := range []string{" ", "\t", "\n", "\r", "\v", "\f", "\xa0", "\x00", "  ", " \t ", "/**/", " /*x*/ "} {
+			spelled := strings.ReplaceAll(lower, " ", sep)
+			found := false
+			for _, frame := range []string{"%s 1", "1 %s 1", "select %s x", "x %s y"} {
+				tr := li.VerifSQLFold(fmt.Sprintf(frame, spelled), li.VerifSQLFlagQuoteNone|li.VerifSQLFlagAnsi)
+				for _, t := range tr.Tokens {
+					if strings.EqualFold(t.Val, k) && t.Category == cls {
+						found = true
+					}
 				}
 			}
+			if !found {
+				return fmt.Sprintf("phrase %q (%q) is in the table but the folder does not merge its words (separated by %q) into one token of that class in any probe frame", k, cls, sep)
+			}
 		}
-		return fmt.Sprintf("phrase %q (%q) is in the table but the folder no longer merges its words into one token of that class in any probe frame", k, cls)
+		return ""
 	}
 	tr := li.VerifSQLTokens(lower, li.VerifSQLFlagQuoteNone|li.VerifSQLFlagAnsi)
 	if len(tr.Tokens) == 1 && len(tr.Tokens[0].Val) == len(k) {
